@@ -9,7 +9,7 @@
      prefix<->suffix adaptors buffer into a local stack first                                      (R2)
 Not decided: that each model's None set is exactly the complement of its support (value level).
 """
-from vlib import sym, rules, effects
+from vlib import sym, rules, effects, facts
 
 NARROWING_CASTS = ('as_', 'IntToInt', 'FloatToInt', 'IntToFloat', 'FloatToFloat')
 MODEL_TRAIT = 'stream::model::EncoderModel'
@@ -500,6 +500,99 @@ def check_huffman(ctx, F):
             ctx.ok('R2', role, d.defpath, 'inner call gets a closure over the local bit stack only; emit follows', key=key)
 
 
+def check_symbol_fetched_once(ctx, F):
+    """A symbol handed in as `impl Borrow<Symbol>` is the caller's code: every `borrow()` is a separate fetch and a safe (if
+    unusual) implementation may answer differently each time.  So on every path the fetch that is *used* (flows into the
+    result, into a callee or into a write) is the very fetch the support decisions of that path examined; a function that
+    range-checks one fetch and computes with another lets an out-of-support value through behind the check - the coder then
+    encodes with a nonsensical interval and corrupts what was encoded before."""
+    import props.C20 as c20
+    n = 0
+    for b in F.bodies:
+        if b.promoted is not None or b.derived or '::tests::' in b.defpath or b.dk not in ('Fn', 'AssocFn') or b.file.startswith('pybindings'):
+            continue
+        sat = c20._sig_arg_types(b)
+        if not any('Borrow<' in t for t in sat):
+            # explicit generic with a Borrow bound: found through the call below
+            pass
+        sites = 0
+        for blk, t in b.calls():
+            c = facts.callee(t)
+            if c and c['def'] == 'core::borrow::Borrow::borrow' and c.get('args'):
+                a0 = c['args'][0]
+                ty = F.types[a0['ty']] if isinstance(a0, dict) and 'ty' in a0 else None
+                if ty and ty.get('k') == 'param' and ty.get('name') in sat:
+                    sites += 1
+        if sites == 0:
+            continue
+        n += 1
+        key = 'R6/symbol-fetched-once/' + b.defpath
+        role = 'the caller\'s `impl Borrow` value is fetched once: what is checked is what is used'
+        ctx.touch(b)
+        if sites == 1:
+            # one call site outside a loop is one fetch; inside a loop it is one fetch per iteration of a stable value?  no: flag loops below
+            pass
+        try:
+            _, paths = rules.evaluate(b, call_hook=c20._fresh_user_views)
+        except sym.TooManyPaths:
+            paths = None
+        if paths is None:
+            ctx.unresolved('R6', role, b.defpath, 'too many paths', key=key)
+            continue
+        is_view = lambda x: isinstance(x, tuple) and x and x[0] == 'call' and str(x[1]).startswith('user-view@')
+        bad = None
+        for r in paths:
+            G, U = {}, {}
+            for t, v, _ in r.preds:
+                for x in sym.subterms(t):
+                    if is_view(x):
+                        G.setdefault(x[2], set()).add(x[1])
+            terms = ([r.ret] if r.ret is not None else []) + [a for e in r.events if e['kind'] == 'call' and not str(e['callee']).startswith('user-view@') for a in e.get('args_val', e['args'])] + [e['value'] for e in r.events if e['kind'] in ('write', 'write_ref')]
+            for t in terms:
+                for x in sym.subterms(t):
+                    if is_view(x):
+                        U.setdefault(x[2], set()).add(x[1])
+            for obj, used in U.items():
+                key_obj = obj
+                obj = obj[0] if isinstance(obj, tuple) and len(obj) == 1 and isinstance(obj[0], tuple) else obj
+                # only the function's own `impl Borrow` arguments (views of a stored user container are C20's single-fetch rule)
+                if not (isinstance(obj, tuple) and obj and (obj[0] == 'arg' or (obj[0] == 'in' and isinstance(obj[1][0], int) and 1 <= obj[1][0] <= b.arg_count))):
+                    continue
+                g = G.get(key_obj, set())
+                if len(used | g) > 1:
+                    bad = 'on one path %d separate fetches of the caller\'s value are in play (%d examined by the path\'s decisions, %d used in the result): a `Borrow` implementation that answers differently between calls gets a value past the support check' % (len(used | g), len(g), len(used))
+                    break
+            if bad:
+                break
+        if bad:
+            ctx.bad('R6', role, b.defpath, bad, key=key, loc=rules.loc(b))
+        else:
+            ctx.ok('R6', role, b.defpath, '%d borrow() site(s); no path mixes fetches' % sites, key=key)
+    ctx.extra['borrow_arg_functions'] = n
+    ctx.floor('R6', 'floor: functions that fetch an `impl Borrow` argument', 'crate', n, 8, 'only %d functions with a borrow() of an `impl Borrow` argument found' % n, key='R6/floor/symbol-fetched-once')
+
+
+def check_symbol_batch(ctx, F):
+    """The batch form of the symbol-code writers is the per-symbol loop that stops at the first rejected symbol: nothing behind
+    an out-of-alphabet symbol is written (same rule as C01's for the stream coders), and no implementor replaces it."""
+    import props.C01 as c01
+    TR = 'symbol::WriteBitStream'
+    c01.loop_batch_check(ctx, F, 'encode_symbols', False, ENC=TR)
+    n = 0
+    for imp in F.impls:
+        if imp.get('trait') != TR:
+            continue
+        n += 1
+        over = [i['name'] for i in imp['items'] if i['name'] in ('encode_symbols', 'encode_iid_symbols')]
+        key = 'R4/symbol-batch-not-overridden/' + imp['path']
+        role = 'implementor keeps the provided batch forms'
+        if over:
+            ctx.bad('R4', role, imp['path'], '`%s` overrides %s: the batch form is no longer the per-symbol loop by construction' % (imp.get('trait_ref'), over), key=key, loc=imp['span']['at'].split('-')[0])
+        else:
+            ctx.ok('R4', role, imp['path'], '%s provides only the per-symbol writer' % imp.get('trait_ref'), key=key)
+    ctx.floor('R4', 'floor: WriteBitStream implementors', 'crate', n, 2, 'only %d impls of symbol::WriteBitStream found (queue and stack writers expected)' % n, key='R4/floor/symbol-writers', public=True)
+
+
 def run(ctx):
     for cfg, F in ctx.facts_by_config.items():
         if cfg == 'default' or cfg == 'pybindings':
@@ -508,6 +601,8 @@ def run(ctx):
                 check_support_decision(ctx, F)
                 check_coders(ctx, F)
                 check_huffman(ctx, F)
+                check_symbol_batch(ctx, F)
+                check_symbol_fetched_once(ctx, F)
                 check_no_panic_on_symbol(ctx, F)
                 from vlib import errdisc
                 errdisc.check(ctx, F, floor=120)     # the impossible-symbol error (and every other) reaches the caller
